@@ -184,6 +184,9 @@ func (d *dialer) dial(redial bool) error {
 	// 3. After timing out from a failed connection attempt.
 
 	if !redial {
+		// Nothing is left running after a failed synchronous dial,
+		// so let the caller try again.
+		d.active = false
 		return err
 	}
 	switch err {
